@@ -492,7 +492,7 @@ for nm, what, q in [
     H("C15", f"debugger::eval::verif_h::{nm}", EVALF, tier=("quick" if q else "thorough"), replayable=False, covers=2, stubs=EVAL_STUBS2, timeout=3000, mem_gb=24,
       functions=["eval_inner", "AsmLine::backpatch", "AsmLine::emit", "AsmLine::bit_offs"], what=what, bounds="one eval; label name 'ab'")
 for nm, what in [("c15_parse_simple_ret", "parse_simple on `ret` with / without a surplus token of any kind"),
-                 ("c15_parse_simple_not", "parse_simple on `not` with 0..3 operand tokens: Ok iff exactly two registers"),
+                 # (c15_parse_simple_not -- `not` with 0..3 operand tokens -- ran out of memory at 30 GB: not registered)
                  ("c15_parse_simple_not_an_instruction", "parse_simple on a non-instruction token / nothing: Err")]:
     H("C15", f"parser::verif_h::{nm}", PAR, tier="thorough", covers=2, stubs=PE_STUBS, timeout=5400, mem_gb=30,
       functions=["AsmParser::parse_simple", "AsmParser::parse_instr"], what=what, bounds="<= 4 tokens")
